@@ -80,7 +80,11 @@ def _apply(variant, root):
         transforms.apply_to_package(root, variant["transform"])
         return True, ""
     if "patch" in variant:
-        r = subprocess.run(["patch", "-p1", "-s", "-d", root, "-i", variant["patch"]], capture_output=True)
+        # only the package is exported: drop the sections of the patch that touch documentation or tests
+        text = open(variant["patch"], encoding="utf-8").read()
+        parts = text.split("diff --git ")
+        kept = [parts[0]] + ["diff --git " + sec for sec in parts[1:] if sec.startswith("a/eliot/") and not sec.startswith("a/eliot/tests/")]
+        r = subprocess.run(["patch", "-p1", "-s", "-d", root], input="".join(kept).encode("utf-8"), capture_output=True)
         return r.returncode == 0, (r.stdout + r.stderr).decode()[:200]
     for fn, old, new in variant["edits"]:
         path = os.path.join(root, "eliot", fn)
